@@ -41,7 +41,78 @@ def record_for(prog, backend, pre, root, via_batch, use_model, root_dir, also=()
         w.close()
 
 
+def concurrent_subcall(chk):
+    """the sub-call is being computed by another thread while the caller's body reaches it (the caller then finds the
+    result inside the per-call mutex). The quantifier of C10 is sequential; this scenario can only add coverage: whatever
+    the timing, the caller's record must equal the record of a cold sequential run."""
+    import threading
+    Z = [0, 0]
+    leaf = dict(explicit=False, stmts=[], const=1, **{"raise": [0, 0, 0, 0]})
+    prog = dict(fns={1: leaf, 2: dict(explicit=False, stmts=[["call", 1, 0, "i", False, False, False, False, Z]], const=2, **{"raise": [0, 0, 0, 0]}),
+                     3: dict(explicit=False, stmts=[["call", 2, 0, "i", False, False, False, False, Z]], const=3, **{"raise": [0, 0, 0, 0]})})
+    for backend in ("memory", "fs"):
+        cold, _, _ = record_for(prog, backend, [], (3, 1, 0), False, False, chk.tmpdir())
+        w = progs.RunWorld(prog, backend=backend, root=chk.tmpdir(), use_model=False)
+        started, go = threading.Event(), threading.Event()
+        orig_enter = progs.REC.enter
+        first = []
+
+        def enter(name, kwargs):
+            orig_enter(name, kwargs)
+            if name == "f2" and not first:
+                first.append(1)
+                started.set()
+                go.wait(10)
+        try:
+            progs.REC.__dict__["enter"] = enter
+            errs = []
+
+            def run(f):
+                try:
+                    w.fn(f)(1)
+                except Exception as e:          # noqa
+                    errs.append(repr(e))
+            ta = threading.Thread(target=run, args=(2,))
+            ta.start()
+            started.wait(10)
+            tb = threading.Thread(target=run, args=(3,))
+            tb.start()
+            tb.join(0.4)                        # give the caller time to block on the sub-call's mutex
+            go.set()
+            ta.join(20)
+            tb.join(20)
+            progs.REC.__dict__.pop("enter", None)
+            rec, _ = w.op(["memento", 3, 1, 0])
+        finally:
+            progs.REC.__dict__.pop("enter", None)
+            go.set()
+            w.close()
+        chk.case(["concurrent-subcall", backend], nontrivial=True, sample=dict(backend=backend, record=rec, cold=cold))
+        chk.count("mode:concurrent-subcall")
+        if errs or rec != cold:
+            chk.violation({"what": "provenance of f3(1) differs when its sub-call f2(1) is computed by another thread at the same time",
+                           "class": {"clause": "provenance-store-independent", "concurrent": True}, "program": prog, "backend": backend,
+                           "root": [3, 1, 0], "pre": [], "concurrent": True, "cold_record": cold, "record": rec, "errors": errs,
+                           "source": progs.render(prog, "replay")})
+
+
 def main(chk, replay=None):
+    if replay is not None and replay.get("concurrent"):
+        class _C:
+            def __init__(self):
+                self.v = []
+            def tmpdir(self):
+                return None
+            def case(self, *a, **k):
+                pass
+            def count(self, *a, **k):
+                pass
+            def violation(self, d):
+                self.v.append(d)
+        c = _C()
+        concurrent_subcall(c)
+        print(json.dumps(dict(still_fails=bool(c.v), observed=[dict(record=x["record"], cold=x["cold_record"]) for x in c.v][:2])))
+        return 1 if c.v else 0
     if replay is not None:
         also = [tuple(x) for x in replay.get("also", [])]
         replay["program"]["fns"] = {int(k): v for k, v in replay["program"]["fns"].items()}
@@ -73,7 +144,17 @@ def main(chk, replay=None):
                           const=3, **{"raise": [0, 0, 0, 0]}),
                   4: dict(explicit=False, stmts=[["call", 3, 0, "i", False, False, False, False, Z], ["call", 2, 1, "i", False, False, False, False, Z]],
                           const=4, **{"raise": [0, 0, 0, 0]})}),
+        # a sub-call that raises a non-memoized exception after making calls of its own, handled by the caller (single and batch)
+        dict(fns={1: leaf(), 2: dict(explicit=False, stmts=[["call", 1, 0, "i", False, False, False, False, Z]], const=2, **{"raise": [1, 0, 2, 5]}),
+                  3: dict(explicit=False, stmts=[["call", 2, 0, "i", False, False, True, False, Z], ["call", 1, 1, "i", False, False, False, False, Z],
+                                                 ["batch", 2, [0, 1], "i", False, False, False, False, Z]], const=3, **{"raise": [0, 0, 0, 0]})}),
+        # the same with a memoized exception and with an exception that cannot be rebuilt
+        dict(fns={1: leaf(), 2: dict(explicit=False, stmts=[["call", 1, 0, "i", False, False, False, False, Z]], const=2, **{"raise": [2, 1, 0, 5]}),
+                  3: dict(explicit=False, stmts=[["call", 1, 2, "i", False, False, False, False, Z]], const=2, **{"raise": [1, 0, 1, 6]}),
+                  4: dict(explicit=False, stmts=[["call", 2, 0, "i", False, False, True, False, Z], ["call", 3, 0, "i", False, False, True, False, Z],
+                                                 ["batch", 3, [0, 1], "i", False, False, False, False, Z]], const=3, **{"raise": [0, 0, 0, 0]})}),
     ]
+    concurrent_subcall(chk)
     for pi in range(nprog + 2 * len(corpus)):
         directed = pi < 2 * len(corpus)
         if directed:
@@ -98,13 +179,13 @@ def main(chk, replay=None):
         subs = [k for k in dict.fromkeys(tr) if k != root]
         if proof_ok and mcold != cold:
             chk.correspondence_break("provenance-record", dict(program=prog, root=root, backend=backend, real=cold, model=mcold))
-        if cold == "none":
+        if cold.split(" || ")[0] == "none":
             chk.count("root-not-memoized")
             continue
         # exactness of the dependency set: on a cold store every function beneath the root ran, so the set of
         # functions in the execution trace is exactly "the function versions invoked transitively, itself included"
         try:
-            deps = sorted(int(x) for x in cold.split("deps=[")[1].rstrip("]").split(",") if x)
+            deps = sorted(int(x) for x in cold.split(" || ")[0].split("deps=[")[1].rstrip("]").split(",") if x)
         except Exception:
             deps = None
         exp = sorted({t[0] for t in tr} | {root[0]})
